@@ -37,12 +37,14 @@
     * `from_operator_repr_amp`  `_from_operator_repr` = Σ_terms coeff·⊗_k f_k with the factors left by
                               the assignments, `assign_last_wins`: a repeated target keeps the last one.
 
-  As found (kernel-checked counterexamples, replayed on the real code by the harness, known findings T1/T2):
-    * `corr_offdiag_counterexample`  `get_correlation_matrix(operator)` contracts `operatorᵀ`: for the product
-                              state (1,i)⊗(1,1) and O = σx+σy the entry [0,1] as written is −4, the documented
-                              ⟨O₀O₁⟩ is 4;
-    * `corr_diag_counterexample`     its diagonal is ⟨Oᵀ_i⟩, not the documented ⟨O_i O_i⟩ (O = diag(0,2): 2 vs 4).
-    The default operator `n` (real, symmetric, idempotent) is not affected.
+  `get_correlation_matrix(operator)` (kernel-checked witnesses, replayed on the real code by the harness):
+    * `corr_offdiag_counterexample`  documents the variant found originally (`corrRowAsFound`: `operatorᵀ`
+                              contracted): for the product state (1,i)⊗(1,1) and O = σx+σy the entry [0,1] was −4,
+                              the documented ⟨O₀O₁⟩ is 4.  FIXED in /repo by 7ffda71 (finding T1); the model
+                              `corrRow` is the repaired code and gives +4 on the witness (`corr_offdiag_repaired_witness`);
+    * `corr_diag_counterexample`     (still open, finding T2) the diagonal is ⟨O_i⟩, not the documented ⟨O_i O_i⟩
+                              (O = diag(0,2): 2 vs 4); pinned by test_correlation_matrix_random.
+    The default operator `n` (real, symmetric, idempotent) is not affected by either.
 
   PARTIAL (stated, not proved here):
     * `TruncationFaithful` — the truncating operations (`MPS.__add__`, `apply_to`, `@`, `truncate`) agree
@@ -342,7 +344,7 @@ example : OrthOk exA none 0 [] [exQr] := by
 example : ∃ fs, orthogonalize exA none 0 [] [exQr] = some fs := ⟨_, rfl⟩
 
 
-/-! ### as found: `MPS.get_correlation_matrix(operator)` -/
+/-! ### `MPS.get_correlation_matrix(operator)`: the variant found originally, and the open diagonal -/
 
 /-- two sites `ψ_A = (1, i)`, `ψ_B = (b0, b1)` (product state, bond dimension 1) -/
 def cexState (b0 b1 : Cx ℤ) : List (Site (Cx ℤ)) :=
@@ -369,16 +371,21 @@ def denseCorr00 {α : Type} [Add α] [Mul α] [OfNat α 0] [OfNat α 1] [Conj α
     conj (amp fs s) * (sumTo d (fun u => op (s.getD 0 0) u * op u (t.getD 0 0))
       * (if s.getD 1 0 = t.getD 1 0 then 1 else 0)) * amp fs t))
 
-/-- Off-diagonal entries: the contraction as written is not the documented `⟨O_i O_j⟩`. -/
+/-- Off-diagonal entries, variant found before 7ffda71: not the documented `⟨O_i O_j⟩` (finding T1, fixed). -/
 theorem corr_offdiag_counterexample :
     ¬ ∀ (fs : List (Site (Cx ℤ))) (op : Nat → Nat → Cx ℤ), validChain 2 fs = true → fs.length = 2 →
-        (corrRow 2 op fs).getD 1 0 = denseCorr01 2 op fs := by
+        (corrRowAsFound 2 op fs).getD 1 0 = denseCorr01 2 op fs := by
   intro h
   have := h (cexState ⟨1, 0⟩ ⟨1, 0⟩) cexOp (by decide) rfl
   revert this
   decide
 
-/-- Diagonal entries: `⟨Oᵀ_i⟩` as written, `⟨O_i O_i⟩` as documented (tail right-orthonormal here). -/
+/-- the repaired code gives the documented value on the witness of T1 -/
+theorem corr_offdiag_repaired_witness :
+    (corrRow 2 cexOp (cexState ⟨1, 0⟩ ⟨1, 0⟩)).getD 1 0 = denseCorr01 2 cexOp (cexState ⟨1, 0⟩ ⟨1, 0⟩) := by
+  decide
+
+/-- Diagonal entries: `⟨O_i⟩` as written, `⟨O_i O_i⟩` as documented (tail right-orthonormal here). -/
 theorem corr_diag_counterexample :
     ¬ ∀ (fs : List (Site (Cx ℤ))) (op : Nat → Nat → Cx ℤ), validChain 2 fs = true → fs.length = 2 →
         (corrRow 2 op fs).getD 0 0 = denseCorr00 2 op fs := by
@@ -387,7 +394,8 @@ theorem corr_diag_counterexample :
   revert this
   decide
 
-example : (corrRow 2 cexOp (cexState ⟨1, 0⟩ ⟨1, 0⟩)).getD 1 0 = ⟨-4, 0⟩ ∧
+example : (corrRowAsFound 2 cexOp (cexState ⟨1, 0⟩ ⟨1, 0⟩)).getD 1 0 = ⟨-4, 0⟩ ∧
+    (corrRow 2 cexOp (cexState ⟨1, 0⟩ ⟨1, 0⟩)).getD 1 0 = ⟨4, 0⟩ ∧
     denseCorr01 2 cexOp (cexState ⟨1, 0⟩ ⟨1, 0⟩) = ⟨4, 0⟩ := by decide
 example : (corrRow 2 cexOp2 (cexState ⟨1, 0⟩ ⟨0, 0⟩)).getD 0 0 = ⟨2, 0⟩ ∧
     denseCorr00 2 cexOp2 (cexState ⟨1, 0⟩ ⟨0, 0⟩) = ⟨4, 0⟩ := by decide
